@@ -5,11 +5,11 @@ Require Import Raft.Quorum Raft.QuorumProofs Raft.RaftModel Raft.RaftSys Raft.Ra
 Import ListNotations.
 
 Section Append.
-  Variables c0 c1 : list nat.
-  Hypothesis Hcfg : c0 <> [] \/ c1 <> [].
+  Variable F : list (list nat * list nat).
+  Hypothesis HF : inter_family F.
 
   Lemma inv_append_gen : forall s id n' ga' k L' c',
-    Inv c0 c1 s ->
+    Inv F s ->
     let n := nodes s id in
     let t := n_term n in
     let X := LL s t in
@@ -24,8 +24,8 @@ Section Append.
        exists ci, com < ci /\ ci <= lni /\ ci - 1 <= length L /\
                   firstn (ci - 1) L = firstn (ci - 1) X /\ term_at L ci <> term_at X ci) ->
     (k <= length L' /\ k <= length X /\ firstn k L' = firstn k X) ->
-    (c' <= length L' /\ (c' = com \/ (com < c' /\ c' <= k /\ CP c0 c1 s t c'))) ->
-    Inv c0 c1 (mkM (upd (nodes s) id n') (msgs s) (gv s) ga' (LL s) (lof s)).
+    (c' <= length L' /\ (c' = com \/ (com < c' /\ c' <= k /\ CP F s t c'))) ->
+    Inv F (mkM (upd (nodes s) id n') (msgs s) (gv s) ga' (LL s) (lof s)).
   Proof.
     intros s id n' ga' k L' c' I n t X L com Hrole Hterm Hvote Hrole' Hlog Hcommit HXne Hga HL Hk Hc.
     set (s' := mkM (upd (nodes s) id n') (msgs s) (gv s) ga' (LL s) (lof s)).
@@ -50,10 +50,10 @@ Section Append.
       - exact Hga_le.
       - intros x t' Hlt. apply Hga_o. destruct (Nat.eq_dec x id) as [->|Hx]; [right; fold n in Hlt; fold t in Hlt; lia|left; exact Hx].
       - intros t'. exists []. rewrite app_nil_r. reflexivity. }
-    assert (Hneverq : forall t' k', neverq c0 c1 s t' k' -> neverq c0 c1 s' t' k') by (intros; eapply ext_neverq; eassumption).
+    assert (Hneverq : forall t' k', neverq F s t' k' -> neverq F s' t' k') by (intros; eapply ext_neverq; eassumption).
     (* facts about the old state of id *)
-    destruct (hK3 _ _ _ I id) as [HoK3a HoK3b]. unfold nd in HoK3a, HoK3b. fold n in HoK3a, HoK3b. fold t in HoK3a, HoK3b. fold L in HoK3a, HoK3b. fold X in HoK3b.
-    destruct (hK9 _ _ _ I id) as [HoK9a HoK9b]. unfold nd in HoK9a, HoK9b. fold n in HoK9a, HoK9b. fold L in HoK9a, HoK9b. fold com in HoK9a, HoK9b. fold t in HoK9b.
+    destruct (hK3 _ _ I id) as [HoK3a HoK3b]. unfold nd in HoK3a, HoK3b. fold n in HoK3a, HoK3b. fold t in HoK3a, HoK3b. fold L in HoK3a, HoK3b. fold X in HoK3b.
+    destruct (hK9 _ _ I id) as [HoK9a HoK9b]. unfold nd in HoK9a, HoK9b. fold n in HoK9a, HoK9b. fold L in HoK9a, HoK9b. fold com in HoK9a, HoK9b. fold t in HoK9b.
     destruct Hk as (Hk1 & Hk2 & Hk3). destruct Hc as [Hc1 Hc2].
     (* what the old log and the new one share *)
     assert (Hkeep : forall j, j <= length L -> firstn j L = firstn j X -> j <= length L' /\ firstn j L' = firstn j X).
@@ -70,85 +70,85 @@ Section Append.
     { rewrite Hga_id. destruct (Hkeep (ga s id t) HoK3a HoK3b) as [Ha Hb].
       destruct (Nat.max_spec (ga s id t) k) as [[_ ->]|[_ ->]]; split; assumption. }
     assert (HwfL' : wf (LL s) L').
-    { destruct HL as [->|(lni & -> & _)]; [apply (hW1 _ _ _ I id)|apply wf_firstn; apply (hW2 _ _ _ I)]. }
+    { destruct HL as [->|(lni & -> & _)]; [apply (hW1 _ _ I id)|apply wf_firstn; apply (hW2 _ _ I)]. }
     constructor.
-    - (* iA1 *) intros x t' Ht'. unfold nd in Ht'. rewrite Hterm' in Ht'. apply (hA1 _ _ _ I x t' Ht').
+    - (* iA1 *) intros x t' Ht'. unfold nd in Ht'. rewrite Hterm' in Ht'. apply (hA1 _ _ I x t' Ht').
     - (* iA2 *) intros x. unfold nd. change (gv s x (n_term (nodes s' x)) = n_vote (nodes s' x)). rewrite Hterm'.
-      destruct (Nat.eq_dec x id) as [->|Hx]; [rewrite Hid, Hvote|rewrite Hnd by exact Hx]; apply (hA2 _ _ _ I).
-    - (* iA3 *) intros x t' c Hg. unfold nd. rewrite Hterm'. apply (hA3 _ _ _ I x t' c Hg).
-    - exact (hA4 _ _ _ I).
+      destruct (Nat.eq_dec x id) as [->|Hx]; [rewrite Hid, Hvote|rewrite Hnd by exact Hx]; apply (hA2 _ _ I).
+    - (* iA3 *) intros x t' c Hg. unfold nd. rewrite Hterm'. apply (hA3 _ _ I x t' c Hg).
+    - exact (hA4 _ _ I).
     - (* iA5 *) intros c x Hr Hv. unfold nd in *. rewrite Hterm'. rewrite Hrole'' in Hr.
       destruct (Nat.eq_dec c id) as [->|Hc']; [fold n in Hr; congruence|].
-      rewrite Hnd in Hv by exact Hc'. apply (hA5 _ _ _ I c x Hr Hv).
-    - exact (hA6a _ _ _ I).
-    - (* iA6b *) intros l Hr. unfold nd in *. rewrite Hterm'. rewrite Hrole'' in Hr. apply (hA6b _ _ _ I l Hr).
-    - (* iA7 *) intros t' l Hl Ht'. unfold nd in *. rewrite Hterm' in Ht'. rewrite Hrole''. apply (hA7 _ _ _ I t' l Hl Ht').
-    - (* iA8 *) intros x Hr. unfold nd in *. rewrite Hterm'. rewrite Hrole'' in Hr. apply (hA8 _ _ _ I x Hr).
+      rewrite Hnd in Hv by exact Hc'. apply (hA5 _ _ I c x Hr Hv).
+    - exact (hA6a _ _ I).
+    - (* iA6b *) intros l Hr. unfold nd in *. rewrite Hterm'. rewrite Hrole'' in Hr. apply (hA6b _ _ I l Hr).
+    - (* iA7 *) intros t' l Hl Ht'. unfold nd in *. rewrite Hterm' in Ht'. rewrite Hrole''. apply (hA7 _ _ I t' l Hl Ht').
+    - (* iA8 *) intros x Hr. unfold nd in *. rewrite Hterm'. rewrite Hrole'' in Hr. apply (hA8 _ _ I x Hr).
     - (* iW1 *) intros x. unfold nd. change (wf (LL s) (n_log (nodes s' x))).
-      destruct (Nat.eq_dec x id) as [->|Hx]; [rewrite Hid, Hlog; exact HwfL'|rewrite Hnd by exact Hx; apply (hW1 _ _ _ I)].
-    - exact (hW2 _ _ _ I).
-    - exact (hW3 _ _ _ I).
+      destruct (Nat.eq_dec x id) as [->|Hx]; [rewrite Hid, Hlog; exact HwfL'|rewrite Hnd by exact Hx; apply (hW1 _ _ I)].
+    - exact (hW2 _ _ I).
+    - exact (hW3 _ _ I).
     - (* iW4 *) intros x e He. unfold nd in *. rewrite Hterm'.
-      destruct (Nat.eq_dec x id) as [->|Hx]; [|rewrite Hnd in He by exact Hx; apply (hW4 _ _ _ I x e He)].
+      destruct (Nat.eq_dec x id) as [->|Hx]; [|rewrite Hnd in He by exact Hx; apply (hW4 _ _ I x e He)].
       rewrite Hid, Hlog in He. fold n. fold t.
-      destruct HL as [->|(lni & -> & _)]; [apply (hW4 _ _ _ I id e He)|].
-      destruct (hW3 _ _ _ I t) as (_ & Hle & _). apply Hle. eapply In_firstn. exact He.
+      destruct HL as [->|(lni & -> & _)]; [apply (hW4 _ _ I id e He)|].
+      destruct (hW3 _ _ I t) as (_ & Hle & _). apply Hle. eapply In_firstn. exact He.
     - (* iW5 *) intros x Hr. unfold nd in *. rewrite Hrole'' in Hr.
       destruct (Nat.eq_dec x id) as [->|Hx]; [fold n in Hr; congruence|].
-      rewrite Hnd by exact Hx. apply (hW5 _ _ _ I x Hr).
-    - exact (hW7 _ _ _ I).
-    - exact (hW8 _ _ _ I).
-    - (* iW9 *) apply (iW9_ext c0 c1 s s' E); [reflexivity|exact (hW9 _ _ _ I)].
+      rewrite Hnd by exact Hx. apply (hW5 _ _ I x Hr).
+    - exact (hW7 _ _ I).
+    - exact (hW8 _ _ I).
+    - (* iW9 *) apply (iW9_ext F s s' E); [reflexivity|exact (hW9 _ _ I)].
     - (* iW10 *) intros m Hm Hty Hr Htm. unfold nd in *. rewrite Hrole'' in Hr. rewrite Hterm' in Htm.
       destruct (Nat.eq_dec (m_from m) id) as [Hx|Hx]; [rewrite Hx in Hr; fold n in Hr; congruence|].
-      rewrite Hnd by exact Hx. apply (hW10 _ _ _ I m Hm Hty Hr Htm).
+      rewrite Hnd by exact Hx. apply (hW10 _ _ I m Hm Hty Hr Htm).
     - (* iW11 *) intros x Hr. unfold nd in *. rewrite Hrole'' in Hr.
       destruct (Nat.eq_dec x id) as [->|Hx]; [fold n in Hr; congruence|].
-      rewrite Hnd by exact Hx. apply (hW11 _ _ _ I x Hr).
-    - (* iW12 *) intros m Hm Hty. unfold nd. rewrite Hterm'. apply (hW12 _ _ _ I m Hm Hty).
-    - (* iW13 *) apply (iW13_ext c0 c1 s s' E); [reflexivity|exact (hW13 _ _ _ I)].
+      rewrite Hnd by exact Hx. apply (hW11 _ _ I x Hr).
+    - (* iW12 *) intros m Hm Hty. unfold nd. rewrite Hterm'. apply (hW12 _ _ I m Hm Hty).
+    - (* iW13 *) apply (iW13_ext F s s' E); [reflexivity|exact (hW13 _ _ I)].
     - (* iK1 *) intros x t'. change (ga' x t' <= length (LL s t')).
       destruct (Nat.eq_dec x id) as [->|Hx].
       + destruct (Nat.eq_dec t' t) as [->|Ht'].
-        * rewrite Hga_id. pose proof (hK1 _ _ _ I id t). fold X. fold X in H. lia.
-        * rewrite Hga_o by (right; exact Ht'). apply (hK1 _ _ _ I).
-      + rewrite Hga_o by (left; exact Hx). apply (hK1 _ _ _ I).
+        * rewrite Hga_id. pose proof (hK1 _ _ I id t). fold X. fold X in H. lia.
+        * rewrite Hga_o by (right; exact Ht'). apply (hK1 _ _ I).
+      + rewrite Hga_o by (left; exact Hx). apply (hK1 _ _ I).
     - (* iK2 *) intros x t' Hg. unfold nd. rewrite Hterm'. change (0 < ga' x t') in Hg.
       destruct (Nat.eq_dec x id) as [->|Hx].
       + destruct (Nat.eq_dec t' t) as [->|Ht']; [fold n; fold t; lia|].
-        rewrite Hga_o in Hg by (right; exact Ht'). apply (hK2 _ _ _ I id t' Hg).
-      + rewrite Hga_o in Hg by (left; exact Hx). apply (hK2 _ _ _ I x t' Hg).
+        rewrite Hga_o in Hg by (right; exact Ht'). apply (hK2 _ _ I id t' Hg).
+      + rewrite Hga_o in Hg by (left; exact Hx). apply (hK2 _ _ I x t' Hg).
     - (* iK3 *) intros x. unfold nd. rewrite Hterm'.
       change (ga' x (n_term (nodes s x)) <= length (n_log (nodes s' x)) /\
               firstn (ga' x (n_term (nodes s x))) (n_log (nodes s' x)) = firstn (ga' x (n_term (nodes s x))) (LL s (n_term (nodes s x)))).
       destruct (Nat.eq_dec x id) as [->|Hx].
       + rewrite Hid, Hlog. fold n. fold t. fold X. exact HnK3.
-      + rewrite Hnd by exact Hx. rewrite Hga_o by (left; exact Hx). apply (hK3 _ _ _ I x).
-    - (* iK4 *) apply (iK4_ext s s' E); [reflexivity|exact (hK4 _ _ _ I)].
+      + rewrite Hnd by exact Hx. rewrite Hga_o by (left; exact Hx). apply (hK3 _ _ I x).
+    - (* iK4 *) apply (iK4_ext s s' E); [reflexivity|exact (hK4 _ _ I)].
     - (* iK5 *) intros l x Hr. unfold nd in *. rewrite Hrole'' in Hr. rewrite Hterm'.
       destruct (Nat.eq_dec l id) as [->|Hl]; [fold n in Hr; congruence|].
-      rewrite Hnd by exact Hl. pose proof (hK5 _ _ _ I l x Hr) as H. unfold nd in H.
+      rewrite Hnd by exact Hl. pose proof (hK5 _ _ I l x Hr) as H. unfold nd in H.
       change (n_match (nodes s l) x <= ga' x (n_term (nodes s l))). pose proof (Hga_le x (n_term (nodes s l))). lia.
     - (* iK6 *) intros x t' k' Hv Hk'. change (valid s t' k') in Hv. change (k' <= ga' x t') in Hk'. unfold nd.
       destruct (Nat.eq_dec x id) as [->|Hx].
       + rewrite Hid, Hlog. destruct (Nat.eq_dec t' t) as [->|Ht'].
         * left. destruct HnK3 as [Ha Hb]. split; [lia|]. apply (firstn_agree_le _ _ _ (ga' id t)); [exact Hb|exact Hk'].
         * rewrite Hga_o in Hk' by (right; exact Ht').
-          destruct (hK6 _ _ _ I id t' k' Hv Hk') as [Hh|Hn]; [|right; apply Hneverq; exact Hn].
+          destruct (hK6 _ _ I id t' k' Hv Hk') as [Hh|Hn]; [|right; apply Hneverq; exact Hn].
           unfold nd in Hh. fold n in Hh. fold L in Hh.
           destruct HL as [->|(lni & -> & Hlni & ci & Hci1 & Hci2 & Hci3 & Hci4 & Hci5)]; [left; exact Hh|].
           assert (Hlt : t' < t).
-          { pose proof (hK2 _ _ _ I id t' ltac:(destruct Hv as [[? ?] _]; lia)) as H2. unfold nd in H2. fold n in H2. fold t in H2. lia. }
-          destruct (hK7 _ _ _ I t' t k' Hlt HXne Hv) as [[HhX1 HhX2]|Hn]; [|right; apply Hneverq; exact Hn].
+          { pose proof (hK2 _ _ I id t' ltac:(destruct Hv as [[? ?] _]; lia)) as H2. unfold nd in H2. fold n in H2. fold t in H2. lia. }
+          destruct (hK7 _ _ I t' t k' Hlt HXne Hv) as [[HhX1 HhX2]|Hn]; [|right; apply Hneverq; exact Hn].
           left. destruct Hh as [Hh1 Hh2]. fold X in HhX1, HhX2.
           assert (Hjc : k' < ci).
           { destruct (le_lt_dec ci k') as [Hle|Hlt']; [|exact Hlt']. exfalso. apply Hci5.
             apply (term_at_agree L X k' ci); [congruence|exact Hle]. }
           split; [rewrite firstn_length; lia|]. rewrite firstn_firstn. rewrite Nat.min_l by lia. exact HhX2.
       + rewrite Hnd by exact Hx. rewrite Hga_o in Hk' by (left; exact Hx).
-        destruct (hK6 _ _ _ I x t' k' Hv Hk') as [Hh|Hn]; [left; exact Hh|right; apply Hneverq; exact Hn].
+        destruct (hK6 _ _ I x t' k' Hv Hk') as [Hh|Hn]; [left; exact Hh|right; apply Hneverq; exact Hn].
     - (* iK7 *) intros t' t3 k' Hlt Hne Hv.
-      destruct (hK7 _ _ _ I t' t3 k' Hlt Hne Hv) as [H|H]; [left; exact H|right; apply Hneverq; exact H].
+      destruct (hK7 _ _ I t' t3 k' Hlt Hne Hv) as [H|H]; [left; exact H|right; apply Hneverq; exact H].
     - (* iK8 *) intros c x t' k' Hr Hg Ht' Hv Hk'. unfold nd in *. rewrite Hrole'' in Hr. rewrite Hterm' in Hg, Ht'.
       change (valid s t' k') in Hv. change (k' <= ga' x t') in Hk'. change (gv s x (n_term (nodes s c)) = Some c) in Hg.
       destruct (Nat.eq_dec c id) as [->|Hc']; [fold n in Hr; congruence|]. rewrite Hnd by exact Hc'.
@@ -156,40 +156,40 @@ Section Append.
       { destruct (Nat.eq_dec x id) as [->|Hx]; [|rewrite Hga_o in Hk' by (left; exact Hx); exact Hk'].
         destruct (Nat.eq_dec t' t) as [->|Ht'']; [|rewrite Hga_o in Hk' by (right; exact Ht''); exact Hk'].
         exfalso. destruct (Nat.le_gt_cases (n_term (nodes s c)) t) as [Hle|Hgt]; [lia|].
-        pose proof (hA1 _ _ _ I id (n_term (nodes s c))) as H1. unfold nd in H1. fold n in H1. fold t in H1.
+        pose proof (hA1 _ _ I id (n_term (nodes s c))) as H1. unfold nd in H1. fold n in H1. fold t in H1.
         rewrite H1 in Hg by exact Hgt. discriminate. }
-      destruct (hK8 _ _ _ I c x t' k' Hr Hg Ht' Hv Hk'') as [H|H]; [left; exact H|right; apply Hneverq; exact H].
+      destruct (hK8 _ _ I c x t' k' Hr Hg Ht' Hv Hk'') as [H|H]; [left; exact H|right; apply Hneverq; exact H].
     - (* iK9 *) intros x. unfold nd. rewrite Hterm'.
       destruct (Nat.eq_dec x id) as [->|Hx].
       + rewrite Hid, Hlog, Hcommit. fold n. fold t. split; [exact Hc1|].
         destruct Hc2 as [->|(Hc2a & Hc2b & HCP)].
         * destruct Hcomkeep as [Hck1 Hck2].
           destruct HoK9b as [Hz|(t0 & k0 & Ht0 & Hc0 & Hk0 & Hf)]; [left; exact Hz|].
-          right. exists t0, k0. split; [exact Ht0|]. split; [apply (ext_committed_at c0 c1 s s' E); exact Hc0|].
+          right. exists t0, k0. split; [exact Ht0|]. split; [apply (ext_committed_at F s s' E); exact Hc0|].
           split; [exact Hk0|]. rewrite Hck2. exact Hf.
         * right. destruct HCP as [_ [Hz|(t0 & k0 & Ht0 & Hc0 & Hk0)]]; [lia|].
-          exists t0, k0. split; [exact Ht0|]. split; [apply (ext_committed_at c0 c1 s s' E); exact Hc0|].
+          exists t0, k0. split; [exact Ht0|]. split; [apply (ext_committed_at F s s' E); exact Hc0|].
           split; [exact Hk0|].
           rewrite (firstn_agree_le _ _ _ _ _ Hk3 Hc2b).
-          destruct (LC_le c0 c1 Hcfg s I t0 k0 t Hc0 Ht0 HXne) as [_ Hhas]. fold X in Hhas.
+          destruct (LC_le F HF s I t0 k0 t Hc0 Ht0 HXne) as [_ Hhas]. fold X in Hhas.
           apply (firstn_agree_le _ _ _ k0); [exact Hhas|exact Hk0].
-      + rewrite Hnd by exact Hx. destruct (hK9 _ _ _ I x) as [H1 H2]. unfold nd in H1, H2. split; [exact H1|].
+      + rewrite Hnd by exact Hx. destruct (hK9 _ _ I x) as [H1 H2]. unfold nd in H1, H2. split; [exact H1|].
         destruct H2 as [Hz|(t0 & k0 & Ht0 & Hc0 & Hk0 & Hf)]; [left; exact Hz|].
-        right. exists t0, k0. split; [exact Ht0|]. split; [apply (ext_committed_at c0 c1 s s' E); exact Hc0|].
+        right. exists t0, k0. split; [exact Ht0|]. split; [apply (ext_committed_at F s s' E); exact Hc0|].
         split; [exact Hk0|exact Hf].
-    - (* iK10 *) apply (iK10_ext c0 c1 s s' E); [reflexivity|exact (hK10 _ _ _ I)].
+    - (* iK10 *) apply (iK10_ext F s s' E); [reflexivity|exact (hK10 _ _ I)].
     - (* iK11 *) intros l Hr. unfold nd in *. rewrite Hrole'' in Hr. rewrite Hterm'.
       destruct (Nat.eq_dec l id) as [->|Hl]; [fold n in Hr; congruence|].
       rewrite Hnd by exact Hl. change (ga' l (n_term (nodes s l)) = length (n_log (nodes s l))).
-      rewrite Hga_o by (left; exact Hl). apply (hK11 _ _ _ I l Hr).
+      rewrite Hga_o by (left; exact Hl). apply (hK11 _ _ I l Hr).
   Qed.
 End Append.
 
 Section AppendStep.
-  Variables c0 c1 : list nat.
-  Hypothesis Hcfg : c0 <> [] \/ c1 <> [].
+  Variable F : list (list nat * list nat).
+  Hypothesis HF : inter_family F.
 
-  Lemma CP_le : forall s t c c2, CP c0 c1 s t c -> c2 <= c -> CP c0 c1 s t c2.
+  Lemma CP_le : forall s t c c2, CP F s t c -> c2 <= c -> CP F s t c2.
   Proof.
     intros s t c c2 [H1 H2] Hle. split; [lia|].
     destruct H2 as [->|(t0 & k0 & Ht0 & Hc0 & Hk0)]; [left; lia|].
@@ -197,18 +197,18 @@ Section AppendStep.
   Qed.
 
   Lemma step_append : forall s id m,
-    Inv c0 c1 s ->
+    Inv F s ->
     In m (msgs s) -> m_type m = MsgApp -> m_to m = id -> m_term m = n_term (nodes s id) ->
     n_role (nodes s id) = Follower ->
-    Inv c0 c1 (set_ga (add_msgs (set_node s id (fst (handle_append id m (nodes s id))))
+    Inv F (set_ga (add_msgs (set_node s id (fst (handle_append id m (nodes s id))))
                                 (snd (handle_append id m (nodes s id))))
                       id (n_term (nodes s id))
                       (Nat.max (ga s id (n_term (nodes s id))) (app_ack (snd (handle_append id m (nodes s id)))))).
   Proof.
     intros s id m I Hm Hty Hto Htm Hr. set (n := nodes s id) in *. set (t := n_term n) in *.
-    destruct (hW9 _ _ _ I m Hm Hty) as (HXne & Hseg & Hlen & Hlt & HCP). rewrite Htm in HXne, Hseg, Hlen, Hlt, HCP.
+    destruct (hW9 _ _ I m Hm Hty) as (HXne & Hseg & Hlen & Hlt & HCP). rewrite Htm in HXne, Hseg, Hlen, Hlt, HCP.
     set (X := LL s t) in *.
-    destruct (hK9 _ _ _ I id) as [HoK9a HoK9b]. unfold nd in HoK9a, HoK9b. fold n in HoK9a, HoK9b. fold t in HoK9b.
+    destruct (hK9 _ _ I id) as [HoK9a HoK9b]. unfold nd in HoK9a, HoK9b. fold n in HoK9a, HoK9b. fold t in HoK9b.
     (* the shape of the final state *)
     assert (Hshape : forall n' out,
       set_ga (add_msgs (set_node s id n') out) id t (Nat.max (ga s id t) (app_ack out))
@@ -219,14 +219,14 @@ Section AppendStep.
     (* the committed prefix of id is a prefix of X *)
     assert (HcomX : n_commit n <= length X /\ firstn (n_commit n) (n_log n) = firstn (n_commit n) X).
     { destruct HoK9b as [Hz|(t0 & k0 & Ht0 & Hc0 & Hk0 & Hf)]; [rewrite Hz; split; [lia|reflexivity]|].
-      destruct (LC_le c0 c1 Hcfg s I t0 k0 t Hc0 Ht0 HXne) as [Hh1 Hh2]. fold X in Hh1, Hh2.
+      destruct (LC_le F HF s I t0 k0 t Hc0 Ht0 HXne) as [Hh1 Hh2]. fold X in Hh1, Hh2.
       split; [lia|]. rewrite Hf. symmetry. apply (firstn_agree_le _ _ _ k0); [exact Hh2|exact Hk0]. }
     unfold handle_append. fold n.
     destruct (m_index m <? n_commit n) eqn:Eic.
     - (* (a) below the commit index: acknowledge the commit index *)
       cbn [fst snd]. rewrite Hshape. cbn [app_ack reply m_reject m_index].
       apply inv_add_msgs.
-      + apply (inv_append_gen c0 c1 Hcfg s id n _ (n_commit n) (n_log n) (n_commit n) I); fold n; fold t; fold X;
+      + apply (inv_append_gen F HF s id n _ (n_commit n) (n_log n) (n_commit n) I); fold n; fold t; fold X;
           try reflexivity; try assumption.
         * left. reflexivity.
         * destruct HcomX as [H1 H2]. split; [exact HoK9a|split; assumption].
@@ -240,7 +240,7 @@ Section AppendStep.
       + (* (c) reject *)
         cbn [fst snd]. rewrite Hshape. cbn [app_ack reply m_reject].
         apply inv_add_msgs.
-        * apply (inv_append_gen c0 c1 Hcfg s id n _ 0 (n_log n) (n_commit n) I); fold n; fold t; fold X;
+        * apply (inv_append_gen F HF s id n _ 0 (n_log n) (n_commit n) I); fold n; fold t; fold X;
             try reflexivity; try assumption.
           -- left. reflexivity.
           -- split; [lia|split; [lia|reflexivity]].
@@ -249,7 +249,7 @@ Section AppendStep.
       + (* (d) panic *)
         cbn [fst snd]. rewrite Hshape. cbn [app_ack].
         apply inv_add_msgs; [|intros m' []].
-        apply (inv_append_gen c0 c1 Hcfg s id n _ 0 (n_log n) (n_commit n) I); fold n; fold t; fold X;
+        apply (inv_append_gen F HF s id n _ 0 (n_log n) (n_commit n) I); fold n; fold t; fold X;
           try reflexivity; try assumption.
         * left. reflexivity.
         * split; [lia|split; [lia|reflexivity]].
@@ -258,10 +258,10 @@ Section AppendStep.
         cbn [fst snd]. rewrite Hshape. cbn [app_ack reply m_reject m_index].
         rewrite Hlt in Ema.
         destruct (maybe_append_spec (LL s) (n_log n) X (n_commit n) (m_index m) (m_commit m) (m_ents m) L' c' lni
-                    (hW1 _ _ _ I id) (hW2 _ _ _ I t) (proj1 (hW3 _ _ _ I t)) Hseg Hlen HoK9a Ema)
+                    (hW1 _ _ I id) (hW2 _ _ I t) (proj1 (hW3 _ _ I t)) Hseg Hlen HoK9a Ema)
           as (Elni & HlniL' & Hagree & HLcase & Hccase).
         apply inv_add_msgs.
-        * apply (inv_append_gen c0 c1 Hcfg s id (set_commit c' (set_log L' n)) _ lni L' c' I); fold n; fold t; fold X;
+        * apply (inv_append_gen F HF s id (set_commit c' (set_log L' n)) _ lni L' c' I); fold n; fold t; fold X;
             try reflexivity; try assumption.
           -- destruct HLcase as [->|(-> & ci & H1 & H2 & H3 & H4 & H5)]; [left; reflexivity|].
              right. exists lni. split; [reflexivity|]. split; [lia|]. exists ci. repeat split; assumption.
@@ -280,8 +280,8 @@ Section AppendStep.
 End AppendStep.
 
 Section SnapshotStep.
-  Variables c0 c1 : list nat.
-  Hypothesis Hcfg : c0 <> [] \/ c1 <> [].
+  Variable F : list (list nat * list nat).
+  Hypothesis HF : inter_family F.
 
   Lemma below_all_or_ex : forall (L X : elog) idx,
     (forall j, 1 <= j < idx -> term_at L j = term_at X j) \/
@@ -307,44 +307,44 @@ Section SnapshotStep.
   Qed.
 
   Lemma step_snapshot : forall s id m,
-    Inv c0 c1 s ->
+    Inv F s ->
     In m (msgs s) -> m_type m = MsgSnap -> m_to m = id -> m_term m = n_term (nodes s id) ->
     n_role (nodes s id) = Follower ->
-    Inv c0 c1 (set_ga (add_msgs (set_node s id (fst (handle_snapshot id m (nodes s id))))
+    Inv F (set_ga (add_msgs (set_node s id (fst (handle_snapshot id m (nodes s id))))
                                 (snd (handle_snapshot id m (nodes s id))))
                       id (n_term (nodes s id))
                       (Nat.max (ga s id (n_term (nodes s id))) (app_ack (snd (handle_snapshot id m (nodes s id)))))).
   Proof.
     intros s id m I Hm Hty Hto Htm Hr. set (n := nodes s id) in *. set (t := n_term n) in *.
-    destruct (hW13 _ _ _ I m Hm Hty) as (HXne & Hents & Hlen & Hlt & HCP). rewrite Htm in HXne, Hents, Hlen, Hlt, HCP.
+    destruct (hW13 _ _ I m Hm Hty) as (HXne & Hents & Hlen & Hlt & HCP). rewrite Htm in HXne, Hents, Hlen, Hlt, HCP.
     set (X := LL s t) in *.
-    destruct (hK9 _ _ _ I id) as [HoK9a HoK9b]. unfold nd in HoK9a, HoK9b. fold n in HoK9a, HoK9b. fold t in HoK9b.
+    destruct (hK9 _ _ I id) as [HoK9a HoK9b]. unfold nd in HoK9a, HoK9b. fold n in HoK9a, HoK9b. fold t in HoK9b.
     assert (Hshape : forall n' out,
       set_ga (add_msgs (set_node s id n') out) id t (Nat.max (ga s id t) (app_ack out))
       = add_msgs (mkM (upd (nodes s) id n') (msgs s) (gv s)
                       (upd2 (ga s) id t (Nat.max (ga s id t) (app_ack out))) (LL s) (lof s)) out) by reflexivity.
     assert (HcomX : n_commit n <= length X /\ firstn (n_commit n) (n_log n) = firstn (n_commit n) X).
     { destruct HoK9b as [Hz|(t0 & k0 & Ht0 & Hc0 & Hk0 & Hf)]; [rewrite Hz; split; [lia|reflexivity]|].
-      destruct (LC_le c0 c1 Hcfg s I t0 k0 t Hc0 Ht0 HXne) as [Hh1 Hh2]. fold X in Hh1, Hh2.
+      destruct (LC_le F HF s I t0 k0 t Hc0 Ht0 HXne) as [Hh1 Hh2]. fold X in Hh1, Hh2.
       split; [lia|]. rewrite Hf. symmetry. apply (firstn_agree_le _ _ _ k0); [exact Hh2|exact Hk0]. }
     assert (Hack_ok : forall s' k, k <= ga s' id t ->
-              msg_ok c0 c1 s' (reply id MsgAppResp (m_from m) t k false)).
+              msg_ok F s' (reply id MsgAppResp (m_from m) t k false)).
     { intros s' k Hk. unfold msg_ok. cbn [reply m_type m_reject m_from m_term m_to m_index].
       split; [intros H0; discriminate H0|]. split; [intros H0; discriminate H0|]. split; [intros H0; discriminate H0|].
       split; [|split; [intros H0; discriminate H0|split; intros H0; discriminate H0]].
       intros _ _. exact Hk. }
     unfold handle_snapshot. fold n. fold t.
-    destruct (m_index m <=? n_commit n) eqn:Eic.
+    destruct ((m_index m <=? n_commit n) || m_reject m) eqn:Eic.
     - (* at or below the commit index: acknowledge the commit index *)
       cbn [fst snd]. rewrite Hshape. cbn [app_ack reply m_reject m_index].
       apply inv_add_msgs.
-      + apply (inv_append_gen c0 c1 Hcfg s id n _ (n_commit n) (n_log n) (n_commit n) I); fold n; fold t; fold X;
+      + apply (inv_append_gen F HF s id n _ (n_commit n) (n_log n) (n_commit n) I); fold n; fold t; fold X;
           try reflexivity; try assumption.
         * left. reflexivity.
         * destruct HcomX as [H1 H2]. split; [exact HoK9a|split; assumption].
         * split; [exact HoK9a|left; reflexivity].
       + intros m' [<-|[]]. apply Hack_ok. cbn [ga]. rewrite upd2_same. lia.
-    - apply Nat.leb_gt in Eic.
+    - apply orb_false_iff in Eic as [Eic _]. apply Nat.leb_gt in Eic.
       destruct (term_at (n_log n) (m_index m) =? m_logterm m) eqn:Emt.
       + (* matchTerm: the commit index is fast-forwarded *)
         apply Nat.eqb_eq in Emt.
@@ -352,9 +352,9 @@ Section SnapshotStep.
         * destruct (commit_to_spec _ _ _ _ Ec) as [[-> Hle]|(-> & Hgt & HleL)]; [lia|].
           cbn [fst snd]. rewrite Hshape. cbn [app_ack reply m_reject m_index].
           assert (Hagree : firstn (m_index m) (n_log n) = firstn (m_index m) X).
-          { apply (wf_match (LL s)); [apply (hW1 _ _ _ I id)|apply (hW2 _ _ _ I t)|lia|exact Hlen|]. rewrite Emt. exact Hlt. }
+          { apply (wf_match (LL s)); [apply (hW1 _ _ I id)|apply (hW2 _ _ I t)|lia|exact Hlen|]. rewrite Emt. exact Hlt. }
           apply inv_add_msgs.
-          -- apply (inv_append_gen c0 c1 Hcfg s id (set_commit (m_index m) n) _ (m_index m) (n_log n) (m_index m) I); fold n; fold t; fold X;
+          -- apply (inv_append_gen F HF s id (set_commit (m_index m) n) _ (m_index m) (n_log n) (m_index m) I); fold n; fold t; fold X;
                try reflexivity; try assumption.
              ++ left. reflexivity.
              ++ split; [exact HleL|split; [exact Hlen|exact Hagree]].
@@ -363,7 +363,7 @@ Section SnapshotStep.
         * (* panic: nothing happens *)
           cbn [fst snd]. rewrite Hshape. cbn [app_ack].
           apply inv_add_msgs; [|intros m' []].
-          apply (inv_append_gen c0 c1 Hcfg s id n _ 0 (n_log n) (n_commit n) I); fold n; fold t; fold X;
+          apply (inv_append_gen F HF s id n _ 0 (n_log n) (n_commit n) I); fold n; fold t; fold X;
             try reflexivity; try assumption.
           -- left. reflexivity.
           -- split; [lia|split; [lia|reflexivity]].
@@ -375,15 +375,15 @@ Section SnapshotStep.
         assert (Hpre : ci - 1 <= length (n_log n) /\ firstn (ci - 1) (n_log n) = firstn (ci - 1) X).
         { destruct (Nat.eq_dec ci 1) as [->|Hc1]; [split; [cbn; lia|reflexivity]|].
           assert (Heq : term_at (n_log n) (ci - 1) = term_at X (ci - 1)) by (apply Hbelow; lia).
-          assert (Hp : 1 <= term_at X (ci - 1)) by (apply terms_pos_term_at; [apply (hW3 _ _ _ I t)|lia]).
+          assert (Hp : 1 <= term_at X (ci - 1)) by (apply terms_pos_term_at; [apply (hW3 _ _ I t)|lia]).
           assert (Hrng : 1 <= ci - 1 <= length (n_log n)) by (apply term_at_range; lia).
-          split; [lia|]. apply (wf_match (LL s)); [apply (hW1 _ _ _ I id)|apply (hW2 _ _ _ I t)|exact Hrng|lia|exact Heq]. }
+          split; [lia|]. apply (wf_match (LL s)); [apply (hW1 _ _ I id)|apply (hW2 _ _ I t)|exact Hrng|lia|exact Heq]. }
         assert (Hcomci : n_commit n < ci).
         { destruct (le_lt_dec ci (n_commit n)) as [Hle|Hgt]; [|exact Hgt]. exfalso. apply Hdc.
           destruct HcomX as [_ Hx]. apply (term_at_agree _ _ (n_commit n) ci Hx Hle). }
         assert (HlenE : length (m_ents m) = m_index m) by (rewrite Hents, firstn_length; lia).
         apply inv_add_msgs.
-        * apply (inv_append_gen c0 c1 Hcfg s id _ _ (m_index m) (m_ents m) (m_index m) I); fold n; fold t; fold X;
+        * apply (inv_append_gen F HF s id _ _ (m_index m) (m_ents m) (m_index m) I); fold n; fold t; fold X;
             try reflexivity; try assumption.
           -- right. exists (m_index m). split; [exact Hents|split; [exact Hlen|]].
              exists ci. destruct Hpre as [Hp1 Hp2]. repeat split; try assumption; lia.
